@@ -38,7 +38,7 @@ def cases(tier, seed):
     out = []
     q = tier == "quick"
     for i in range(16 if q else 160):
-        out.append(dict(t="box", cs=["astronomical", "planetary"][i % 2], n=60 if q else 200, seed=R.randrange(1 << 30)))
+        out.append(dict(t="box", cs=["astronomical", "planetary"][i % 2], n=25 if q else 100, seed=R.randrange(1 << 30)))
     for i in range(16 if q else 160):
         out.append(dict(t="pin", cs=["astronomical", "planetary"][i % 2], n=40 if q else 150, seed=R.randrange(1 << 30)))
     for i in range(32 if q else 400):
@@ -135,21 +135,26 @@ def case_box(spec):
             continue
         box = (lon0, lon0 + w, la0, la1)
         f = _latlon_tile_filter(*box)
-        acc = {}
-        must = {}
-        for p in universe:
-            t, lon, lat = tile_and_grid(cs, p)
-            acc[p] = guarded(f, t, probs)
-            must[p] = bool(inside_box(lon, lat, box).any())
-            n_dec += 1
-        for p in universe:
-            if must[p]:
-                n_must += 1
-                if not acc[p]:
-                    probs.append(("box-false-negative:" + cs, "box %r: tile %s has a pixel centre inside but is rejected" % (box, p)))
-                for a in ancestors(p):
-                    if not acc[a]:
-                        probs.append(("box-ancestor-rejected:" + cs, "box %r: tile %s holds data but its ancestor %s is rejected" % (box, p, a)))
+        # ONE filter object answers for tiles of both coordinate systems (a position is another patch of sky in the other
+        # system), in a random order, and a second time afterwards
+        ocs = "planetary" if cs == "astronomical" else "astronomical"
+        order = [cs, ocs] if R.random() < 0.5 else [ocs, cs]
+        for cs_ in order + [order[0]]:
+            acc = {}
+            must = {}
+            for p in universe:
+                t, lon, lat = tile_and_grid(cs_, p)
+                acc[p] = guarded(f, t, probs)
+                must[p] = bool(inside_box(lon, lat, box).any())
+                n_dec += 1
+            for p in universe:
+                if must[p]:
+                    n_must += 1
+                    if not acc[p]:
+                        probs.append(("box-false-negative:" + cs_, "box %r: tile %s has a pixel centre inside but is rejected (filter used for %s)" % (box, p, order)))
+                    for a in ancestors(p):
+                        if not acc[a]:
+                            probs.append(("box-ancestor-rejected:" + cs_, "box %r: tile %s holds data but its ancestor %s is rejected (filter used for %s)" % (box, p, a, order)))
         if len(probs) > 6:
             break
     r = dict(counters=dict(box_decisions=n_dec, box_must_accept=n_must), nontrivial=n_must > 0, sample=dict(spec=spec))
@@ -458,8 +463,21 @@ def case_chunks_all(spec, workdir):
     D = spec["depth"]
     a = os.path.join(workdir, "chunks")
     pio = PyramidIO(a, default_format="npy")
-    for i in range(fc.n_chunks):
-        toast.sample_layer_filtered(pio, ck.filter(i), ck.sampler(i), D, coordsys=CS.PLANETARY, parallel=1)
+    how = ["one_by_one", "pairs_first", "pairs_first_reversed", "samplers_first"][spec["seed"] % 4]
+    if how == "one_by_one":
+        for i in range(fc.n_chunks):
+            toast.sample_layer_filtered(pio, ck.filter(i), ck.sampler(i), D, coordsys=CS.PLANETARY, parallel=1)
+    else:
+        # every (filter, sampler) pair is requested up front and used afterwards (in order or reversed)
+        if how == "samplers_first":
+            smp = [ck.sampler(i) for i in range(fc.n_chunks)]
+            pairs = [(ck.filter(i), smp[i]) for i in range(fc.n_chunks)]
+        else:
+            pairs = [(ck.filter(i), ck.sampler(i)) for i in range(fc.n_chunks)]
+        if how == "pairs_first_reversed":
+            pairs.reverse()
+        for fl, sm in pairs:
+            toast.sample_layer_filtered(pio, fl, sm, D, coordsys=CS.PLANETARY, parallel=1)
     g = samplers.plate_carree_planet_sampler(idmap)
     probs = []
     n = ties = 0
